@@ -154,6 +154,7 @@ static void bool_variants(econf_file *kf, uint64_t &count) {
 struct TypedKey {
   int type;  // 0 i32 1 u32 2 f32 3 i64 4 u64 5 f64 6 bool
   uint64_t bits;
+  bool refused_after = false;  // a boolean set with a word that is not accepted follows: it fails and stores nothing
 };
 static void file_roundtrip(const std::vector<TypedKey> &keys) {
   econf_file *kf = nullptr;
@@ -187,6 +188,14 @@ static void file_roundtrip(const std::vector<TypedKey> &keys) {
     if (e != ECONF_SUCCESS) {
       econf_freeFile(kf);
       VF_FAIL("set-failed", "typed setter rc=" << e);
+    }
+    if (keys[i].refused_after) {
+      static const char *junk[4] = {"maybe", "2", "on", "tru"};
+      econf_err e2 = econf_setBoolValue(kf, sec, k.c_str(), junk[b % 4]);
+      if (e2 == ECONF_SUCCESS) {
+        econf_freeFile(kf);
+        VF_FAIL("junk-accepted", "econf_setBoolValue('" << junk[b % 4] << "') succeeded");
+      }
     }
   }
   e = econf_writeFile(kf, g_scr.dir.c_str(), "typed.conf");
@@ -330,6 +339,15 @@ static void run(Src &s) {
       if (sh == 1) b >>= s.below(63);
       if (sh == 2) b &= 0x800FFFFFFFFFFFFFull;  // subnormal doubles
       if ((b & 0x7FF0000000000000ull) == 0 && (b & 0xFFFFFFFFFFFFFull)) subn = true;
+      if (s.chance(6)) {
+        // a refused boolean set on the key the round trips use leaves what is stored there alone
+        econf_err e0 = econf_setInt64Value(kf, "T", "v", (int64_t)b);
+        econf_err e1 = econf_setBoolValue(kf, "T", "v", "maybe");
+        int64_t back = 0;
+        econf_err e2 = econf_getInt64Value(kf, "T", "v", &back);
+        VF_CHECK(e0 == ECONF_SUCCESS && e1 != ECONF_SUCCESS && e2 == ECONF_SUCCESS && back == (int64_t)b, "refused-set-had-effect",
+                 "set " << (int64_t)b << ", refused boolean set (rc=" << e1 << "), get: rc=" << e2 << " value " << back);
+      }
       rt_i64(kf, (int64_t)b);
       rt_u64(kf, b);
       rt_f64(kf, b);
@@ -354,6 +372,7 @@ static void run(Src &s) {
       k.bits = s.raw64();
       if (s.chance(25)) k.bits >>= s.below(63);
       if (k.type == 2) k.bits &= 0xffffffffu;
+      k.refused_after = s.chance(8);
       keys.push_back(k);
       h = fnv_u64(k.bits ^ (uint64_t)k.type, h);
     }
